@@ -271,12 +271,12 @@ bool Instance::eval(const size_t argc, char* const* argv) {
         const size_t vlen = strlen(v);
         // empty strings are ignored
         if (!v[0]) continue;
-        // number?
-        int n = atoi(v);
+        // number? (64 bit, as in a script: 2147483648 is a number there, not the bytes 0x2147483648)
+        int64_t n = atoll(v);
         if (n != 0) {
             // verify
             char buf[vlen + 1];
-            snprintf(buf, vlen + 1, "%d", n);
+            snprintf(buf, vlen + 1, "%" PRId64, n);
             if (!strcmp(buf, v)) {
                 // verified; is it > 3 chars and can it be a hexstring too?
                 if (vlen > 3 && !(vlen & 1)) {
@@ -291,7 +291,7 @@ bool Instance::eval(const size_t argc, char* const* argv) {
                     if (VALUE_WARN) btc_logf("warning: ambiguous input %s is interpreted as a numeric value (%s), not as an opcode (OP_%s). Use OP_%s to force into op code interpretation\n", v, v, v, v);
                 }
 
-                script << (int64_t)n;
+                script << n;
                 continue;
             }
         }
